@@ -72,32 +72,88 @@ pub type Items = Seq<Result<Value, MergingValuesError>>;
 /// the item sequence `merge_sections_many` yields for these input streams, in this order (units value_iter,
 /// merge_into: sorted, non-overlapping, per-base sums)
 pub uninterp spec fn merged(parts: Seq<Src>) -> Items;
-pub uninterp spec fn fmin32(a: f32, b: f32) -> f32;
-pub uninterp spec fn fadd32(a: f32, b: f32) -> f32;
-pub uninterp spec fn fgt32(a: f32, b: f32) -> bool;
-/// mv_adjust `new/item/clip_first_then_adjust`, `new/item/ok_stays_ok_start_end_untouched`, `new/item/errors_pass_through`
-pub open spec fn adjust_item(x: Result<Value, MergingValuesError>, clip: Option<f32>, adjust: f32) -> Result<Value, MergingValuesError> {
-    match x {
-        Ok(v) => Ok(Value { start: v.start, end: v.end, value: fadd32(match clip { Some(c) => fmin32(c, v.value), None => v.value }, adjust) }),
-        Err(e) => Err(e),
+/// item-level vocabulary + the two error lemmas, in a module of their own: the lemmas are broadcast in the outer module,
+/// and a spec fn that a broadcast lemma mentions must not itself sit under that module-level `broadcast use`
+pub mod items_ax {
+    use vstd::prelude::*;
+    use super::{Value, MergingValuesError, Items};
+    pub uninterp spec fn fmin32(a: f32, b: f32) -> f32;
+    pub uninterp spec fn fadd32(a: f32, b: f32) -> f32;
+    pub uninterp spec fn fgt32(a: f32, b: f32) -> bool;
+    /// mv_adjust `new/item/clip_first_then_adjust`, `new/item/ok_stays_ok_start_end_untouched`, `new/item/errors_pass_through`
+    pub open spec fn adjust_item(x: Result<Value, MergingValuesError>, clip: Option<f32>, adjust: f32) -> Result<Value, MergingValuesError> {
+        match x {
+            Ok(v) => Ok(Value { start: v.start, end: v.end, value: fadd32(match clip { Some(c) => fmin32(c, v.value), None => v.value }, adjust) }),
+            Err(e) => Err(e),
+        }
+    }
+    /// mv_adjust `new/item/kept_iff_strictly_above_threshold` (the Ok case); `on_err` = what the filter closure answers
+    /// for an Err item -- read off the closure's spelling by the //@presub of (A): `x.as_ref().map_or(D, |v| ..)` answers
+    /// D, `matches!(x, Ok(v) if ..)` answers false (a `matches!` is false for whatever its pattern does not match).
+    /// C15/C13 need `true` (mv_adjust `new/item/errors_are_kept`): see `mv_items` and `errs`.
+    pub open spec fn keep_item(x: Result<Value, MergingValuesError>, threshold: f32, on_err: bool) -> bool {
+        match x { Ok(v) => fgt32(v.value, threshold), Err(_) => on_err }
+    }
+    /// `.map(adjust closure)` / `.filter(keep closure)` over a whole stream; opaque so that the ORDER of the two
+    /// stages is compared syntactically (a swapped pipeline fails at once instead of unfolding `filter`)
+    #[verifier::opaque]
+    pub open spec fn adjusted_items(s: Items, clip: Option<f32>, adjust: f32) -> Items { s.map_values(|x: Result<Value, MergingValuesError>| adjust_item(x, clip, adjust)) }
+    #[verifier::opaque]
+    pub open spec fn kept_items(s: Items, threshold: f32, on_err: bool) -> Items { s.filter(|x: Result<Value, MergingValuesError>| keep_item(x, threshold, on_err)) }
+    /// the read errors in a stream of items, in order (C15/C13: an error of an input reaches the consumer of the merged
+    /// stream, it is never silently dropped -- the writers stop at the first Err item and the tool fails)
+    pub open spec fn errs(s: Items) -> Seq<MergingValuesError>
+        decreases s.len()
+    {
+        if s.len() == 0 { Seq::empty() } else {
+            match s.last() { Err(e) => errs(s.drop_last()).push(e), Ok(_) => errs(s.drop_last()) }
+        }
+    }
+    /// the adjust stage maps Err(e) to Err(e) and Ok to Ok: the errors of the stream are the same, in order
+    pub broadcast proof fn lemma_adjust_keeps_errors(s: Items, clip: Option<f32>, adjust: f32)
+        ensures #[trigger] errs(adjusted_items(s, clip, adjust)) == errs(s),
+    { adjust_keeps_errors_rec(s, clip, adjust); }
+    pub proof fn adjust_keeps_errors_rec(s: Items, clip: Option<f32>, adjust: f32)
+        ensures errs(adjusted_items(s, clip, adjust)) == errs(s),
+        decreases s.len()
+    {
+        reveal(adjusted_items);
+        let f = |x: Result<Value, MergingValuesError>| adjust_item(x, clip, adjust);
+        if s.len() > 0 {
+            adjust_keeps_errors_rec(s.drop_last(), clip, adjust);
+            assert(s.map_values(f).drop_last() =~= s.drop_last().map_values(f));
+        }
+    }
+    /// a filter that answers TRUE for every Err item (`on_err`) drops no error; nothing of the kind holds for one that
+    /// answers false
+    pub broadcast proof fn lemma_keep_keeps_errors(s: Items, threshold: f32, on_err: bool)
+        requires on_err,
+        ensures #[trigger] errs(kept_items(s, threshold, on_err)) == errs(s),
+    { keep_keeps_errors_rec(s, threshold, on_err); }
+    pub proof fn keep_keeps_errors_rec(s: Items, threshold: f32, on_err: bool)
+        requires on_err,
+        ensures errs(kept_items(s, threshold, on_err)) == errs(s),
+        decreases s.len()
+    {
+        reveal(kept_items);
+        let p = |x: Result<Value, MergingValuesError>| keep_item(x, threshold, on_err);
+        if s.len() > 0 {
+            keep_keeps_errors_rec(s.drop_last(), threshold, on_err);
+            reveal_with_fuel(Seq::filter, 2);
+            let sub = s.drop_last().filter(p);
+            if p(s.last()) { assert(sub.push(s.last()).drop_last() =~= sub); }
+        } else {
+            reveal_with_fuel(Seq::filter, 2);
+        }
     }
 }
-/// mv_adjust `new/item/errors_are_kept`, `new/item/kept_iff_strictly_above_threshold`
-pub open spec fn keep_item(x: Result<Value, MergingValuesError>, threshold: f32) -> bool {
-    match x { Ok(v) => fgt32(v.value, threshold), Err(_) => true }
-}
-/// `.map(adjust closure)` / `.filter(keep closure)` over a whole stream; opaque so that the ORDER of the two
-/// stages is compared syntactically (a swapped pipeline fails at once instead of unfolding `filter`)
-#[verifier::opaque]
-pub open spec fn adjusted_items(s: Items, clip: Option<f32>, adjust: f32) -> Items { s.map_values(|x: Result<Value, MergingValuesError>| adjust_item(x, clip, adjust)) }
-#[verifier::opaque]
-pub open spec fn kept_items(s: Items, threshold: f32) -> Items { s.filter(|x: Result<Value, MergingValuesError>| keep_item(x, threshold)) }
+pub use items_ax::*;
 /// C15 "applies clip, adjust and threshold to that per-base sum", in that order: the per-base sums of ALL the
 /// streams handed in, each clipped then adjusted, and of those the ones whose ADJUSTED value is strictly above the
 /// threshold (help text of --threshold: "Don't output values at or below this threshold": it speaks of the
 /// values that are output)
 pub open spec fn mv_items(parts: Seq<Src>, threshold: f32, adjust: Option<f32>, clip: Option<f32>) -> Items {
-    kept_items(adjusted_items(merged(parts), clip, match adjust { Some(a) => a, None => 0.0f32 }), threshold)
+    kept_items(adjusted_items(merged(parts), clip, match adjust { Some(a) => a, None => 0.0f32 }), threshold, true)
 }
 /// the lazy pipeline (`impl Iterator` of merge_sections_many and its adaptors)
 #[verifier::external_body]
@@ -108,9 +164,10 @@ impl Pipe {
     /// variables it captures): ASSUMED = proved per item in unit mv_adjust
     #[verifier::external_body]
     pub fn map_adjust(self, clip: Option<f32>, adjust: f32) -> (r: Pipe) ensures r.items() == adjusted_items(self.items(), clip, adjust) { unimplemented!() }
-    /// the `.filter(move |x| x.as_ref().map_or(true, |v| v.value > threshold))` closure of `new`: likewise
+    /// the `.filter(move |x| x.as_ref().map_or(true, |v| v.value > threshold))` closure of `new`: likewise for the
+    /// test on an Ok item; `on_err` = the closure's answer for an Err item as its spelling says (see `keep_item`)
     #[verifier::external_body]
-    pub fn filter_keep(self, threshold: f32) -> (r: Pipe) ensures r.items() == kept_items(self.items(), threshold) { unimplemented!() }
+    pub fn filter_keep(self, threshold: f32, on_err: bool) -> (r: Pipe) ensures r.items() == kept_items(self.items(), threshold, on_err) { unimplemented!() }
     /// `Iterator::peekable`: the same items, nothing consumed
     #[verifier::external_body]
     pub fn peekable(self) -> (r: VIter) ensures r.rest() == self.items() { unimplemented!() }
@@ -135,7 +192,7 @@ pub mod seq_ax {
         ensures #[trigger] s.subrange(0, n).push(x) == s,
     { assert(s.subrange(0, n).push(x) =~= s); }
 }
-broadcast use {seq_ax::lemma_pop_then_push_back, seq_ax::lemma_pop_then_push_back2};
+broadcast use {seq_ax::lemma_pop_then_push_back, seq_ax::lemma_pop_then_push_back2, items_ax::lemma_adjust_keeps_errors, items_ax::lemma_keep_keeps_errors};
 /// anything that IS an `Iterator<Item = Result<Value, MergingValuesError>>` here: the lazy pipeline, or one raw input
 /// stream (`I` of `new<I>`); `yields` = the items it hands out, in order
 pub trait ValueIterator: Sized { spec fn yields(&self) -> Items; }
@@ -164,6 +221,9 @@ pub struct MergingValues {
     // We Box<dyn Iterator> because other this would be a mess to try to type
     pub iter: VIter,
 }
+// the filter closure, whole, in one of the two spellings that unit mv_adjust carves (TEST without parentheses or
+// `|`/`&`, so that nothing after the closure's own closing parenthesis can be swallowed); the second argument is the
+// closure's answer for an Err item.  Any other closure stays `.filter(..)` on a `Pipe`: front-end refusal.
 impl MergingValues {
 pub fn new(
         iters: Vec<Stream>,
@@ -174,12 +234,14 @@ pub fn new(
         ensures
             
             r.iter.rest() == mv_items(srcs(iters@), threshold, adjust, clip),
+            
+            errs(r.iter.rest()) == errs(merged(srcs(iters@))),
 {
         let adjust = adjust.unwrap_or(0.0);
         let iter: Pipe = boxed_iter(
             merge_sections_many(iters)
                 .map_adjust(clip, adjust)
-                .filter_keep(threshold),
+                .filter_keep(threshold, true),
         );
         MergingValues {
             iter: iter.peekable(),
